@@ -60,7 +60,15 @@ def _obs_rp(cls, ts, kw, network, via=False):
         if via:
             mode, val, rest = _split_mode(kw)
             rp = cls(ts, silence_level=3, threshold=1.0e6, **rest)
-            getattr(rp, SETTER[mode])(val)
+            if mode == "adaptive_neighborhood_size" and hasattr(rp, "N"):
+                # the documented processing order of the state vectors: standard, reversed or rotated (whatever
+                # the order, every state ends up with at least the requested number of neighbours)
+                n = int(rp.recurrence_matrix().shape[0])
+                pick = (len(str(ts)) + n + int(val)) % 3
+                order = None if pick == 0 else np.arange(n)[::-1] if pick == 1 else np.roll(np.arange(n), n // 2)
+                getattr(rp, SETTER[mode])(val, order=None if order is None else order.astype("int32"))
+            else:
+                getattr(rp, SETTER[mode])(val)
         else:
             rp = cls(ts, silence_level=3, **kw)
     except Exception as ex:
